@@ -112,3 +112,40 @@ def run_impl_cases(cases):
     for lo in range(0, len(cases), 250):
         out += run_impl('core_impl.py', {'cases': cases[lo:lo + 250]}, timeout=1200)
     return out
+
+
+ALL_ENTRIES = ('is_bearable', 'die_if_unbearable', 'typehint', 'param', 'return')
+
+
+def entry_disagreements(cases, observed):
+    """(case index, draw index, detail) where the entry points do not reach one verdict"""
+    out = []
+    for ci, res in enumerate(observed):
+        for di, per in enumerate(res.get('runs', [])):
+            vs = {e: o['verdict'] for e, o in per.items()}
+            if len(set(vs.values())) > 1:
+                out.append((ci, di, vs))
+    return out
+
+
+def integrity_failures(cases, observed):
+    """(case index, draw index, entry, detail) where a check mutated or consumed its subject"""
+    out = []
+    for ci, res in enumerate(observed):
+        for di, per in enumerate(res.get('runs', [])):
+            for e, o in per.items():
+                if o['mutations'] or not o['intact']:
+                    out.append((ci, di, e, {'mutations': o['mutations'], 'intact': o['intact']}))
+    return out
+
+
+def record_distribution(ctx, cases, observed):
+    for case, res in zip(cases, observed):
+        d, signs = hint_shape(case['hint'])
+        ctx.count('hint_depth=%d' % d)
+        for s in set(signs):
+            ctx.count('sign:' + s)
+        ctx.count('random' if case['is_random'] else 'nonrandom')
+        ctx.count('sat' if res.get('sat') else 'unsat')
+        for per in res.get('runs', []):
+            ctx.count('verdict:' + per['is_bearable']['verdict'].split(':')[0])
